@@ -9,6 +9,7 @@ CONSTANTS
   Kinds = {"pa", "pk", "up", "sd"}
   NatKinds = {"sd", "up"}
   Prune = TRUE
+  Plan = "free"
 INVARIANTS TypeOK CoroMode RunToSuspension QueueFIFO ObservedOrder ResumeOncePerReadying NoReentrancy RoundRobin FullDrain AllDoneAtEnd
 PROPERTY FIFOStep
 CHECK_DEADLOCK FALSE
